@@ -316,6 +316,13 @@ func (r *runner) build(ev event, committed *snap) []*built {
 				if have.Cmp(cost) < 0 {
 					b.expect = "fails-precheck"
 				}
+			case "create-empty-lowgas":
+				addr := keys.Address(xch.ContractAddr(from, nonceOf(from)).Bytes())
+				b.to = addr
+				r.tracked(addr, "contract-address")
+				b.spec = xch.OLVMCreate(r.w, from, n, zero, nil)
+				gas = 40000
+				b.expect = "fails-precheck"
 			case "create-store", "create-kill":
 				code, val := xch.InitCode(storeClearRuntime), zero
 				if o.Kind == "create-kill" {
